@@ -134,9 +134,19 @@ def h_expand_mx_flow(eng):
     eng.prove("flow.expand_mx_unused_in_generator", z3.BoolVal(not hits), lines=hits)
 
 
+def h_metadata_instruction_inspection(eng):
+    """The one place where pymoca itself looks INSIDE a CasADi expression whose shape depends on inline_functions -- the list of
+    allowed operations of variable_metadata_function's affine shortcut -- must not admit an operation that can hide a non-affine
+    body (a non-inlined call is ONE instruction).  This is C13's contract of variable_metadata_function, run here because a
+    representation-only option decides whether the function body or a call node is what the list is tested against."""
+    from . import C13
+    C13.h_metadata_function(eng)
+
+
 HARNESSES = [("generator.py def-use of unroll_loops / inline_functions", h_generator_flow),
-             ("model.py def-use of expand_mx", h_expand_mx_flow)]
-EXPECTED_COVER = {"flow.generator", "flow.model"}
+             ("model.py def-use of expand_mx", h_expand_mx_flow),
+             ("Model.variable_metadata_function: operations admitted to the affine shortcut", h_metadata_instruction_inspection)]
+EXPECTED_COVER = {"flow.generator", "flow.model", "meta.done"}
 BOUNDED = True
 LEVEL = "other"
 TRUSTED = ["Python's ast module as the reader of the source", "CasADi: Function.map(name, mode, ...), Function.call(args, always_inline, never_inline) and Function.expand() preserve function values for every mode (this IS the dependency-side content of the property)",
